@@ -1,8 +1,5 @@
 """Engine `bitmap` (C03): random API histories on a pool of real hwloc bitmaps vs the Lean model."""
-import os, shutil, hashlib
-from concurrent.futures import ThreadPoolExecutor
-from common import *
-from diffrun import *
+from eng_generic import DiffEngine
 
 
 def canon_repr(line):
@@ -25,96 +22,12 @@ def classify(op, c, m):
     return "diff"
 
 
-def one_run(binp, workdir, idx, seed, nops):
-    d = os.path.join(workdir, "r%d" % idx)
-    os.makedirs(d, exist_ok=True)
-    ops, cout, mout, st = [os.path.join(d, x) for x in ("ops.txt", "c.out", "m.out", "stats.txt")]
-    env = dict(os.environ, VERIF_SEED=str(seed), ASAN_OPTIONS="detect_leaks=1:abort_on_error=0")
-    r = run([binp, str(nops), ops, cout, st], env=env)
-    res = {"seed": seed, "rc": r.returncode, "san": r.stdout[-3000:] if r.returncode else "", "dir": d}
-    if os.path.exists(ops):
-        run_model("bitmap", ops, mout)
-        o, c, m = read_lines(ops), read_lines(cout), read_lines(mout)
-        nd, nb, firsts = compare_streams(o, c, m, classify)
-        res.update(nops=len(o), ndiff=nd, nbenign=nb, firsts=firsts, ops=o, c=c)
-        res["stats"] = dict((l.split()[0], int(l.split()[1])) for l in read_lines(st)) if os.path.exists(st) else {}
-    else:
-        res.update(nops=0, ndiff=0, nbenign=0, firsts=[], ops=[], c=[], stats={})
-    return res
+ENGINE = DiffEngine("bitmap", include_c=("bitmap",), classify=classify,
+                    sizes={"quick": (16, 20000), "thorough": (64, 150000)},
+                    rule="random API histories over a pool of 8 bitmaps (boundary-biased indexes, 35% forced aliasing of "
+                         "destination and operands); a case is one call applied to the current pool state; distinct = distinct "
+                         "(function, observed C result incl. full representation) pairs")
 
 
-def shrink(binp, workdir, ops):
-    d = os.path.join(workdir, "shrink")
-    os.makedirs(d, exist_ok=True)
-    p, c, m = [os.path.join(d, x) for x in ("ops.txt", "c.out", "m.out")]
-
-    def fails(sub):
-        open(p, "w").write("\n".join(sub) + "\n")
-        r = run([binp, "--replay", p, c], env=dict(os.environ, ASAN_OPTIONS="detect_leaks=0"))
-        if r.returncode != 0:
-            return True
-        run_model("bitmap", p, m)
-        nd, _, _ = compare_streams(sub, read_lines(c), read_lines(m), classify)
-        return nd > 0
-    return ddmin(ops, fails)
-
-
-def replay_text(binp, workdir, ops):
-    """annotated replay: op, C result, model result"""
-    d = os.path.join(workdir, "shrink")
-    os.makedirs(d, exist_ok=True)
-    p, c, m = [os.path.join(d, x) for x in ("ops.txt", "c.out", "m.out")]
-    open(p, "w").write("\n".join(ops) + "\n")
-    r = run([binp, "--replay", p, c], env=dict(os.environ, ASAN_OPTIONS="detect_leaks=0"))
-    run_model("bitmap", p, m)
-    cl, ml = read_lines(c), read_lines(m)
-    out = ["# engine bitmap: op | hwloc (C) | Lean model   -- replay: harness bitmap --replay <ops>"]
-    for i, o in enumerate(ops):
-        ci = cl[i] if i < len(cl) else "<none>"
-        mi = ml[i] if i < len(ml) else "<none>"
-        out.append("%s | %s | %s%s" % (o, ci, mi, "" if ci == mi else "   <== DIFFERS"))
-    if r.returncode != 0:
-        out.append("# harness exit %d:\n# %s" % (r.returncode, r.stdout[-1500:].replace("\n", "\n# ")))
-    return "\n".join(out) + "\n"
-
-
-def run_engine(tier, seed, corpus_dir=None):
-    binp = build_harness("bitmap", include_c=("bitmap",))
-    workdir = os.path.join(BUILD, "run", "bitmap-%s" % os.getpid())
-    shutil.rmtree(workdir, ignore_errors=True)
-    os.makedirs(workdir)
-    nruns, nops = (16, 20000) if tier == "quick" else (64, 150000)
-    seeds = [int(seed) * 1000003 + i for i in range(nruns)]
-    with ThreadPoolExecutor(NCPU) as ex:
-        results = list(ex.map(lambda a: one_run(binp, workdir, a[0], a[1], nops), enumerate(seeds)))
-    total = sum(r["nops"] for r in results)
-    benign = sum(r["nbenign"] for r in results)
-    stats = {}
-    distinct = set()
-    for r in results:
-        for k, v in r["stats"].items():
-            stats[k] = stats.get(k, 0) + v
-        for o, c in zip(r["ops"], r["c"]):
-            t = o.split()
-            # distinct behaviours: op name, non-handle args, observed result
-            distinct.add(hashlib.md5((t[0] + "|" + c).encode()).digest()[:8])
-    problems = []
-    for r in results:
-        if r["rc"] != 0 or r["ndiff"] > 0:
-            ops = r["ops"]
-            if r["ndiff"] > 0:
-                ops = ops[: r["firsts"][0][0] + 1]
-            small = shrink(binp, workdir, ops) if len(ops) < 200000 else ops
-            txt = replay_text(binp, workdir, small)
-            what = "sanitizer/abort in harness" if r["rc"] != 0 and r["ndiff"] == 0 else "C and model disagree"
-            problems.append({"what": what, "seed": r["seed"], "replay": txt, "min_ops": small})
-            break  # one minimised replay is enough
-    sample = []
-    if results and results[0]["ops"]:
-        sample = ["%s -> %s" % (o, c) for o, c in list(zip(results[0]["ops"], results[0]["c"]))[100:112]]
-    shutil.rmtree(workdir, ignore_errors=True)
-    return {"evaluations": total, "distinct_nontrivial": len(distinct), "benign_repr_diffs": benign,
-            "distribution": stats, "buckets_hit": len(stats), "problems": problems, "samples": sample,
-            "rule": "random API histories over a pool of 8 bitmaps (boundary-biased indexes, 35% forced aliasing of "
-                    "destination and operands); a case is one op applied to the current pool state; distinct = distinct "
-                    "(op name, observed C result incl. full representation) pairs"}
+def run_engine(tier, seed):
+    return ENGINE.run_engine(tier, seed)
